@@ -87,8 +87,8 @@ class CellVariable:
             phi_val = cell_value
         elif np.all(np.array(cell_value.shape)==mesh_struct.dims+2):
             # Values for ghost cells already included,
-            # simply fill
-            self._value = TrackedArray(cell_value)
+            # simply fill (as float, like every other construction path)
+            self._value = TrackedArray(np.asarray(cell_value, dtype=float))
         else:
             raise ValueError(f"The cell size {cell_value.shape} is not valid "\
                              f"for a mesh of size {mesh_struct.dims}.")
